@@ -80,9 +80,10 @@ def make_data(rng, spec, n=None, classes=('normal',)):
 
 def admit(spec, datasets):
   for s in spec.signatures:
-    ok, why = interp.admit(spec.content, s, datasets[s['key']][0])
-    if not ok:
-      return False, why
+    for x in datasets[s['key']]:
+      ok, why = interp.admit(spec.content, s, x)
+      if not ok:
+        return False, why
   return True, ''
 
 
